@@ -1,11 +1,11 @@
 SPECIFICATION Spec
 CONSTANTS
   Cap = 2
-  Scripts <- MCScripts4
+  Scripts <- MCScripts
   Sequential = FALSE
   Mode = "mc"
-  EmitTR = TRUE
-  Api = "spawn"
+  EmitTR = FALSE
+  Api = "output"
   WCaps = {1, 3}
   WriteAll = TRUE
   SpawnWaits = FALSE
